@@ -39,7 +39,59 @@ def _z3_check(smt2, timeout_ms, seed=0):
     return s, r
 
 
+class _Watchdog:
+    """A solver call that ignores its time limit, or a grounding that explodes, must never hang a check: after the hard
+    deadline the worker's z3 context is interrupted and the main thread gets a KeyboardInterrupt; the obligation is then
+    reported `unknown` (never a verdict)."""
+    def __init__(self, seconds):
+        import threading
+        self.fired = False
+        self._t = threading.Timer(seconds, self._fire)
+        self._t.daemon = True
+
+    def _fire(self):
+        import _thread
+        self.fired = True
+        try:
+            z3.main_ctx().interrupt()
+        except Exception:
+            pass
+        _thread.interrupt_main()
+
+    def __enter__(self):
+        self._t.start()
+        return self
+
+    def __exit__(self, *a):
+        self._t.cancel()
+        return False
+
+
+def _limit_memory():
+    # one worker may not take the machine down (a runaway grounding once reached 10 GB)
+    try:
+        import resource
+        cap = int(os.environ.get('PYVC_WORKER_MEM_GB', '6')) * (1 << 30)
+        soft, hard = resource.getrlimit(resource.RLIMIT_AS)
+        if hard == resource.RLIM_INFINITY or cap < hard:
+            resource.setrlimit(resource.RLIMIT_AS, (cap, hard))
+    except Exception:
+        pass
+
+
 def _solve_one(task):
+    idx, timeout_ms = task[0], task[2]
+    hard = 4 * timeout_ms / 1000.0 + 60
+    t0 = time.time()
+    try:
+        with _Watchdog(hard) as wd:
+            return _solve_one_(task)
+    except BaseException as ex:          # watchdog, MemoryError, solver crash: never a verdict
+        return {'idx': idx, 'backend': 'z3', 'result': 'unknown', 'model': None, 'seconds': round(time.time() - t0, 3),
+                'reason': 'worker gave up after %.0fs: %r' % (time.time() - t0, ex)}
+
+
+def _solve_one_(task):
     idx, smt2, timeout_ms, kind, want_ground, seed = task
     t0 = time.time()
     res = {'idx': idx, 'backend': 'z3', 'result': 'unknown', 'model': None, 'reason': ''}
@@ -208,7 +260,7 @@ def start_pool(procs=None):
     global _POOL
     if _POOL is None:
         procs = procs or int(os.environ.get('PYVC_PROCS', '0')) or min(16, os.cpu_count() or 4)
-        _POOL = mp.get_context('fork').Pool(procs)
+        _POOL = mp.get_context('fork').Pool(procs, initializer=_limit_memory)
     return _POOL
 
 
